@@ -252,9 +252,16 @@ prop('C16', level='other',
                  'old labels (lemma minrun_monotone). Bounded only: WHICH rows are edited (the cycles immediately outside each burst, '
                  'direction looking into the burst) - synthetic tables with every is_burst pattern up to 6 (8) rows and corpus tables.')
 
-prop('C17', level='other', units=[], jobs=['phase'],
-     explanation='Bounded: every alternating peak/trough placement (gaps >= 2) on arrays up to length 9 (12) with and without '
-                 'midpoints (coinciding with extrema included), plus corpus cyclepoints at several boundaries.')
+prop('C17', level='other', units=['bycycle.cyclepoints.phase._merge_phases'], jobs=['phase'],
+     unit_jobs={'bycycle.cyclepoints.phase._merge_phases': ['phase']},
+     explanation='Proved for _merge_phases (all lengths, all finite branch series that rise somewhere): the result has the input '
+                 'length, equals the merged series (+pi branch where the -pi branch is about to decrease) from the first rising step '
+                 'up to and including the sample the last non-zero step leads to, and is NaN before and after; no StopIteration '
+                 '(explicit witnesses); slice bounds in range (the negative computed slice start of the pinned tree fails these '
+                 'obligations). Bounded: anchor assignment, np.interp and the statement-level facts (0 at peaks, +-pi at troughs, '
+                 '+-pi/2 at midpoints, range, monotone between cyclepoints, finite exactly on the cyclepoint span) - every '
+                 'alternating placement with gaps >= 2 on arrays up to length 9 (12), with and without midpoints (coinciding with '
+                 'extrema included), plus corpus cyclepoints at several boundaries.')
 
 prop('C18', level='other', units=[DF + 'drop_samples_df'], jobs=['limit_df', 'limit_signal', 'samples_split_flatten'],
      explanation='Deductive: drop_samples_df (column partition, values unaltered). Bounded so far: limit_df, limit_signal, '
